@@ -171,7 +171,7 @@ Proof.
   - rewrite (IH H). apply orb_true_r.
   - destruct (memZ c (c_cpus p)) eqn:Em; [|discriminate].
     destruct (c_lab p =? Q_NONE) eqn:El; [discriminate|].
-    rewrite H, Em. reflexivity.
+    rewrite H. reflexivity.
 Qed.
 
 (* well-formed input of adjustByCPUSet: processor ids are distinct and the pod annotations do
@@ -326,6 +326,8 @@ Proof. intros H c Hc. apply H. apply to_set_in. exact Hc. Qed.
 Lemma adjust_holds_model i : adjust_wf i -> adjust_holds i (adjust i).
 Proof.
   intros Hwf. unfold adjust.
+  assert (Ht : 0 <= target i).
+  { unfold target. apply target_count_nonneg; [unfold dedup_len|]; apply lenZ_nonneg. }
   assert (Hold0 : target i <= 0 -> to_set (a_old i) = []).
   { intros H. unfold target in H. apply target_zero_old in H;
       [|unfold dedup_len; apply lenZ_nonneg | apply lenZ_nonneg].
@@ -347,8 +349,7 @@ Proof.
         rewrite to_set_len; assumption. }
     destruct (a_static i) eqn:Es; cbn [adjust_holds]; rewrite Es.
     + split; [exact Hnew1|]. split; [exact Hnew2|]. split; [reflexivity|].
-      destruct (to_set (recover_set i)) as [|y r] eqn:Er; [left; reflexivity|].
-      right. rewrite <- Er. apply unprotected_existing_to_set. apply recover_set_ok.
+      right. apply unprotected_existing_to_set. apply recover_set_ok.
     + split; [exact Hnew1|]. split; [exact Hnew2|]. split; reflexivity.
   - (* no eligible cpu: nothing is written *)
     unfold be_cpuset in Ebe.
